@@ -634,8 +634,11 @@ fn serialize_rangeoffset_glyph_ids(
         .filter(|idx| s.get_value_at::<i16>(id_delta + idx * 2).unwrap() == 0)
         .collect();
 
+    // number of glyph ids already written to the glyphIdArray by earlier segments
+    let mut num_glyph_ids = 0;
     for i in indices {
-        let val = 2 * (seg_count - i);
+        // the offset is relative to the position of idRangeOffset[i] itself
+        let val = 2 * (seg_count - i + num_glyph_ids);
         s.copy_assign(id_range_offset + i * 2, val as u16);
         let start_cp = s.get_value_at::<u16>(start_code + i * 2).unwrap() as u32;
         let end_cp = s.get_value_at::<u16>(end_code + i * 2).unwrap() as u32;
@@ -644,6 +647,7 @@ fn serialize_rangeoffset_glyph_ids(
                 .get(&cp)
                 .ok_or(SerializeErrorFlags::SERIALIZE_ERROR_OTHER)?;
             s.embed(gid.to_u32() as u16)?;
+            num_glyph_ids += 1;
         }
     }
     Ok(())
